@@ -1,11 +1,12 @@
 """C03 - stored methods are the identity up to the declared length; -lzs-/-lz5- decode every
 well-formed stream to what its commands denote in the 2 KiB / 4 KiB ring models."""
 import random
-from .. import build, core, dech
+from .. import build, core, dech, rdh, arc
 from ..lhamodel import larc
 
 LEVEL = 'exploration'
 _EXE = None
+_RDR = None
 
 
 def check_batch(sh, cases, expect, label):
@@ -112,10 +113,49 @@ def shard_stored(seed):
     return sh
 
 
+def shard_reader(seed):
+    """The same guarantee seen through the reader API: members of these methods under every OS type (OS type 'm' routes the data
+    through the MacBinary probe, which must hand plain members on unchanged), sizes around 128 (the size of an envelope) and
+    around the decoders' block sizes; read-all, check and 1-byte-then-rest patterns."""
+    sh = core.Shard()
+    rnd = random.Random(seed)
+    cases, expect = [], []
+    sizes = [0, 1, 2, 127, 128, 129, 255, 256, 257, 384, 1023, 1024, 1025, 2048, 4096, 5000]
+    for meth in ('-lh0-', '-lz4-', '-pm0-', '-lz5-', '-lzs-'):
+        for os_t in (ord('U'), ord('m'), ord('M'), ord('K'), ord('A'), 0):
+            for lvl in (1, 2, 3):
+                ms = [arc.file_member(rnd, meth, b'f%d' % i, size=sz, level=lvl, os_type=os_t) for i, sz in enumerate(rnd.sample(sizes, 5) + [128])]
+                a = arc.archive(ms)
+                for pat in (2, 3):
+                    cases.append(rdh.RCase(a, [(rdh.OP_WALK, pat)], kind=rnd.choice([0, 2]), flags=rdh.F_FULLDATA, meta=(meth, os_t, lvl, pat)))
+                    expect.append(ms)
+    def on_crash(case, cls, key, err):
+        sh.violation('C03-crash:' + key, 'reading %s members (OS type %r, level %d) through the reader: %s: %s' % (case.meta[0], case.meta[1], case.meta[2], cls, err[-800:]), case.archive)
+    res = rdh.run_batch(_RDR, cases, sh, label='c03rd', on_crash=on_crash)
+    for c, ms in zip(cases, expect):
+        ev = res.get(c.id)
+        sh.evaluated(c.archive + repr(c.meta).encode(), nontrivial=True)
+        sh.hist('reader_members_by_os_type', chr(c.meta[1]) if c.meta[1] else '0')
+        if ev is None:
+            continue
+        got = [d for k, d in ev if k in ('readall', 'check')]
+        if len(got) != len(ms):
+            sh.violation('C03-reader-members:%s:os=%s' % (c.meta[0], c.meta[1]), '%d members delivered through the reader, %d archived (%s)' % (len(got), len(ms), c.meta,), c.archive)
+            continue
+        for x, d in zip(ms, got):
+            if c.meta[3] == 2 and d['data'] != x.plain:
+                sh.violation('C03-reader-data:%s:os=%s' % (c.meta[0], chr(c.meta[1]) if c.meta[1] else '0'), 'member of %d bytes (%s, OS type %r, level %d) read through the reader '
+                             'gave %d bytes' % (len(x.plain), c.meta[0], c.meta[1], c.meta[2], len(d['data'] or b'')), c.archive)
+            elif c.meta[3] == 3 and d['result'] != 1:
+                sh.violation('C03-reader-check:%s:os=%s' % (c.meta[0], chr(c.meta[1]) if c.meta[1] else '0'), 'lha_reader_check fails on a valid member of %d bytes (%s)' % (len(x.plain), c.meta,), c.archive)
+    return sh
+
+
 def run(ctx):
-    global _EXE
+    global _EXE, _RDR
     b = build.Builder()
     _EXE = b.harness('asan', 'decode', ['h_decode.c'])
+    _RDR = b.harness('asan', 'reader', ['h_reader.c'], wrap_alloc=True)
     args = []
     for lo in range(0, 4096, 512):
         args.append((shard_probe, ('-lz5-', lo, lo + 512)))
@@ -127,12 +167,15 @@ def run(ctx):
         args.append((shard_random, ('-lz5-', ctx.seed * 31 + r, n)))
         args.append((shard_random, ('-lzs-', ctx.seed * 37 + r, n)))
     args.append((shard_stored, (ctx.seed,)))
+    for r in range(2 if ctx.tier == 'quick' else 12):
+        args.append((shard_reader, (ctx.seed * 41 + r,)))
     core.run_shards(ctx, _dispatch, args)
     ctx.cov['exhaustive'] = True
     ctx.cov['exhaustive_subspace'] = 'single copy command as first command: all 4096x16 (lz5) and 2048x16 (lzs) (position, length) pairs'
     ctx.cov['rule'] = ('exhaustive single-copy probes over (position, length); directed overlap/seam/flag-byte cases (all 256 lz5 flag '
                        'bytes, final runs of 1..8 commands); seeded random command streams; stored methods over length/declared/'
-                       'read-size/callback-chunk grids; distinct by stream+parameters; non-trivial = more than one command or, for '
+                       'read-size/callback-chunk grids; the same methods through the reader API under six OS types (Mac OS routes data through the '
+                       'MacBinary probe) with sizes around 128 and the block sizes; distinct by stream+parameters; non-trivial = more than one command or, for '
                        'probes, each (position,length) pair')
     ctx.assumptions.append('ring models in vlib/lhamodel/larc.py written from the format description (LArc fill pattern, write positions)')
 
